@@ -83,6 +83,10 @@ def handleWire (w : WSt) (ws : List String) : Option (WSt × String) :=
     some (w, showViols (H2V.Spec.Verdict.connResult ((pc.splitOn ",").filterMap (·.toNat?)) r (rc.toNat?.getD 0)))
   | ["mon_cn", "ioerr", raised, reported] =>
     some (w, showViols (H2V.Spec.Verdict.ioSurfaced ((raised.splitOn ",").filter (· ≠ "-")) reported))
+  | ["mon_cn", "bodyend", a, b] =>
+    match a.toNat?, b.toNat? with
+    | some x, some y => some (w, showViols (H2V.Spec.Verdict.bodyEnd x y))
+    | _, _ => none
   | ["mon_cn", "quiescent"] => some (w, showViols (quiescent w))
   | ["mon_cn", "delivered", sid, what] =>
     match sid.toNat? with
